@@ -11,7 +11,7 @@ use super::{
     recon::{run_session, scratch_dir, BackendKind, Party, DEFAULT_CFG},
 };
 use crate::{
-    explore::{bfs, Outcome as BfsOutcome},
+    explore::{bfs_nd, Outcome as BfsOutcome},
     refmodel::ModelReplica,
     report::Report,
     sut::{Outcome, Sut},
@@ -377,7 +377,7 @@ fn explore(ctx: &Ctx, report: &mut Report, n: u8, ops: &[Op], depth: usize) {
     let mut evals = 0u64;
     let mut nt = 0u64;
     let mut closed: BTreeSet<String> = BTreeSet::new();
-    bfs(ctx, report, &evs, depth, 1, |h, report, ordinal| {
+    bfs_nd(ctx, report, &evs, depth, 1, if ctx.quick() { 1 } else { 2 }, |h, report, ordinal| {
         let case = json!({"n": n, "hist": h});
         let _watch = crate::util::watch::enter_secs("swarm history incl. closing phase", case.clone(), 120);
         match catch(|| replay_history(n, h)) {
